@@ -63,6 +63,9 @@ def gen_config(rng, seg_p=0.5):
     cfg["custom"] = rng.random() < 0.5
     cfg["custom_edge"] = rng.random() < 0.4
     cfg["zero_ids"] = rng.random() < 0.15
+    import ctor as K
+
+    cfg["supply"] = K.choose_supply(rng, cfg)
     return cfg
 
 
@@ -114,26 +117,34 @@ def gen_forest(rng, cfg):
 
 
 def build_tracks(cfg, g, seg):
+    """SolutionTracks from the raw graph - which may carry track ids, lineage ids, positions and areas of its own
+    (cfg['supply']) -, then the extra features, then the custom registrations. The raw solution and the observed
+    state right after construction (and after the extra enable) are kept in cfg['_ctor'] for the constructor
+    correspondence (harness/ctor.py)."""
+    import sys
+
+    import ctor as K
     from funtracks.data_model import SolutionTracks
 
     kw = {}
     if cfg["per_axis"]:
         kw["pos_attr"] = (["z"] if cfg["ndim"] == 4 else []) + ["y", "x"]
-    t = SolutionTracks(g, segmentation=seg, ndim=cfg["ndim"], scale=cfg["scale"], **kw)
-    if cfg.get("zero_ids"):
-        # a solution that arrives with its own 0-based track / lineage ids (valid existing ids are kept):
-        # id 0 is falsy, None is not
-        g2 = g.copy()
-        for n in g2.nodes:
-            g2.nodes[n]["track_id"] = int(t.get_track_id(n)) - 1
-            g2.nodes[n]["lineage_id"] = int(t.get_lineage_id(n)) - 1
-        for n in g2.nodes:
-            for k in list(g2.nodes[n]):
-                if k not in ("time", "pos", "z", "y", "x", "track_id", "lineage_id"):
-                    del g2.nodes[n][k]
-        t = SolutionTracks(g2, segmentation=None if seg is None else np.array(seg), ndim=cfg["ndim"], scale=cfg["scale"], **kw)
+    sup = cfg.get("supply") or {"track": None, "lineage": None, "pos": False, "area": False}
+    g2 = g
+    if any(sup.values()) and g.number_of_nodes() > 0:
+        # what the data would get when computed from scratch; a solution that arrives with its own valid ids
+        # (0-based: id 0 is falsy, None is not; or non-contiguous) keeps them
+        ref = SolutionTracks(g.copy(), segmentation=None if seg is None else np.array(seg), ndim=cfg["ndim"], scale=cfg["scale"], **kw)
+        g2 = K.supply(cfg, g, ref, sup)
+    me = sys.modules[__name__]
+    raw = K.raw_lines(me, cfg, g2, seg, kw.get("pos_attr") or ["pos"])
+    t = SolutionTracks(g2, segmentation=seg, ndim=cfg["ndim"], scale=cfg["scale"], **kw)
+    obs = [dict(observe(t, cfg, 0, "-"), ret=0, aux=[])]
     if cfg["enable"]:
         t.enable_features(list(cfg["enable"]))
+        raw.append("EN %s 1 - -" % ",".join(str(KEY[k]) for k in cfg["enable"]))
+        obs.append(dict(observe(t, cfg, 0, "-"), ret=0, aux=[]))
+    cfg["_ctor"] = {"lines": raw, "obs": obs}
     if cfg["custom"]:
         t.features["c1"] = {"feature_type": "node", "value_type": "int", "num_values": 1, "required": False, "default_value": None}
     if cfg.get("custom_edge"):
@@ -331,6 +342,12 @@ def gen_op(rng, t, cfg, ids_seen):
         if u is None:
             u, v = pick(), pick()
         f = rng.random() < 0.4
+        # directed: re-route the later daughter of a division below its earlier sibling, forcing the
+        # conflicting division edge away (the source's track changes during the call: it merges with its parent's)
+        sibs = [(a, b) for pp in ns if g.out_degree(pp) == 2 for a in g.successors(pp) for b in g.successors(pp)
+                if t.get_time(a) < t.get_time(b)]
+        if sibs and rng.random() < 0.12:
+            (u, v), f = rng.choice(sibs), True
         return "A %d %d %d" % (u, v, f), (lambda: UserAddEdge(t, (u, v), force=f)), "add_edge"
     if kind == "de":
         es = list(g.edges)
@@ -344,12 +361,14 @@ def gen_op(rng, t, cfg, ids_seen):
         r = rng.random()
         tid = rng.choice(tids) if tids and r < 0.6 else (t.get_next_track_id() if r < 0.8 else rng.choice([50, 51, 60]))
         # branch-directed choices: splice into a skip edge of a track / add below a division
-        skips = [(a, b) for a, b in g.edges if t.get_time(b) - t.get_time(a) >= 2 and t.get_track_id(a) == t.get_track_id(b)]
+        skips = [(a, b) for a, b in g.edges if t.get_time(b) - t.get_time(a) >= 2]
         divs = [a for a in ns if g.out_degree(a) == 2 and t.get_time(a) < T - 1]
         r3 = rng.random()
         if skips and r3 < 0.3:
+            # into the empty frames under a skip edge, with the track id of either endpoint (the same id on a
+            # linear track; the daughter's or the parent's id under a division edge)
             a, b = rng.choice(skips)
-            tm, tid = rng.randrange(t.get_time(a) + 1, t.get_time(b)), t.get_track_id(a)
+            tm, tid = rng.randrange(t.get_time(a) + 1, t.get_time(b)), t.get_track_id(rng.choice([a, b, b]))
         elif divs and r3 < 0.45:
             a = rng.choice(divs)
             tm, tid = rng.randrange(t.get_time(a) + 1, T), t.get_track_id(a)
@@ -384,6 +403,8 @@ def gen_op(rng, t, cfg, ids_seen):
                     toks.append("%d=t%d" % (KEY[ax], nid))
             else:
                 attrs["pos"] = [float(nid)] + [0.0] * (cfg["ndim"] - 2)
+                if rng.random() < 0.4:  # one row of an (N, ndim) array, as TracksController.add_nodes hands it over
+                    attrs["pos"] = np.array(attrs["pos"])
                 toks.append("1=t%d" % nid)
         # malformed stream: pixels without an array (ValueError) / in a frame that does not exist
         # (IndexError): must be refused before any sub-edit (F-11d)
@@ -399,6 +420,14 @@ def gen_op(rng, t, cfg, ids_seen):
         return ("AN %d %d %s %s" % (nid, f, px_txt(px), " ".join(toks))).rstrip(), (lambda: UserAddNode(t, nid, attrs, pixels=pixels, force=f)), "add_node"
     if kind == "dn":
         n_ = pick()
+        # directed: delete the last node of a track, undo, cut it off its track, link it below another track,
+        # then delete its former predecessor (the lookups of the old track must have forgotten the node)
+        tails = [x for x in ns if g.out_degree(x) == 0 and g.in_degree(x) == 1
+                 and t.get_track_id(next(iter(g.predecessors(x)))) == t.get_track_id(x)]
+        if tails and rng.random() < 0.25:
+            n_ = rng.choice(tails)
+            cfg["_plan"] = [("undo", None), ("cut_above", n_), ("link_from_other_track", n_),
+                            ("delete", next(iter(g.predecessors(n_))))]
         return "DN %d" % n_, (lambda: UserDeleteNode(t, n_)), "delete_node"
     if kind == "sw":
         a_, b_ = pick(), pick()
@@ -498,6 +527,33 @@ def planned_op(rng, t, cfg, item):
     from funtracks.user_actions import UserUpdateSegmentation
 
     kind, arg = item
+    g_ = t.graph
+    if kind == "undo":
+        return "U", t.undo, "undo"
+    if kind == "cut_above":      # delete the edge into the node
+        from funtracks.user_actions import UserDeleteEdge
+
+        if arg not in g_ or g_.in_degree(arg) != 1:
+            return None
+        e = (next(iter(g_.predecessors(arg))), arg)
+        return "D %d %d" % e, (lambda: UserDeleteEdge(t, e)), "delete_edge"
+    if kind == "link_from_other_track":   # link the node below a node of another track
+        from funtracks.user_actions import UserAddEdge
+
+        if arg not in g_ or g_.in_degree(arg) != 0:
+            return None
+        cand = [a for a in g_.nodes if t.get_time(a) < t.get_time(arg) and g_.out_degree(a) < 2
+                and t.get_track_id(a) != t.get_track_id(arg)]
+        if not cand:
+            return None
+        e = (rng.choice(cand), arg)
+        return "A %d %d 0" % e, (lambda: UserAddEdge(t, e, force=False)), "add_edge"
+    if kind == "delete":
+        from funtracks.user_actions import UserDeleteNode
+
+        if arg not in g_:
+            return None
+        return "DN %d" % arg, (lambda: UserDeleteNode(t, arg)), "delete_node"
     if kind == "dis":
         ks = list(arg)
         return "DIS %s" % ",".join(str(KEY[k]) for k in ks), (lambda: t.disable_features(ks)), "disable"
@@ -628,6 +684,7 @@ def run_scenario(seed, idx, nsteps=None, seg_p=0.5, on_step=None, toggles=0.0):
     cfg["toggles"] = toggles
     g, seg = gen_forest(rng, cfg)
     t = build_tracks(cfg, g, seg)
+    ctor_rec = cfg.pop("_ctor", None)
     cnt = [0, "-"]
 
     def on_refresh(*a):
@@ -679,7 +736,7 @@ def run_scenario(seed, idx, nsteps=None, seg_p=0.5, on_step=None, toggles=0.0):
         signal.signal(signal.SIGALRM, old)
     cfg.pop("_burst", None)
     cfg.pop("_plan", None)
-    return {"lines": lines, "obs": obs, "kinds": kinds, "cfg": cfg, "seed": seed, "index": idx, "tracks": t}
+    return {"lines": lines, "obs": obs, "kinds": kinds, "cfg": cfg, "seed": seed, "index": idx, "tracks": t, "ctor": ctor_rec}
 
 
 # --------------------------------------------------------------------------- model output parsing and comparison
@@ -850,6 +907,23 @@ def compare(scn, model_lines):
             return steps, {"step": i, "fields": bad, "op": scn["lines"][nline] if nline is not None else "init",
                            "impl": _brief(io), "model": recs[i][:600]}
     return steps, None
+
+
+def compare_ctor(scn, model_lines):
+    """constructor correspondence of one scenario: (records compared, first divergence or None)"""
+    rec = scn.get("ctor")
+    if not rec:
+        return 0, None
+    recs = [l for l in model_lines if l.startswith("ret=")]
+    n = 0
+    for i, io in enumerate(rec["obs"]):
+        if i >= len(recs):
+            return n, {"step": i, "fields": ["missing-model-record"], "op": "construct"}
+        bad = diff_step(scn["cfg"], io, parse_record(recs[i]))
+        n += 1
+        if bad:
+            return n, {"step": i, "fields": bad, "op": "construct" if i == 0 else rec["lines"][-1], "impl": _brief(io), "model": recs[i][:600]}
+    return n, None
 
 
 def _brief(o):
